@@ -690,8 +690,12 @@ public:
                             attrs.append({ 0x0025, QByteArray() });
                         }
                         roleAttrs();
-                        f.data = buildStun(0x0001, id, attrs, integrity, forgerKey, fingerprint);
-                        what = QStringLiteral("binding request");
+                        // the two top bits of the type are reserved (must be zero); an implementation that classifies a
+                        // message with one mask and picks its key with another may be fooled by them
+                        static const quint16 topBits[] = { 0x0000, 0x0000, 0x4000, 0x8000, 0xc000 };
+                        const quint16 reserved = topBits[fr.uniform(5)];
+                        f.data = buildStun(0x0001 | reserved, id, attrs, integrity, forgerKey, fingerprint);
+                        what = reserved ? QStringLiteral("binding request with reserved type bits set") : QStringLiteral("binding request");
                     } else if (kind < 6) {
                         // a response to a check the target really has in flight (transaction id read off the wire)
                         const Seen *req = nullptr;
